@@ -16,7 +16,8 @@ RULE = ('two real layers with mirrored (symmetric or asymmetric) random addresse
         'virtual time advancing below the timeouts. Oracle: receiver recv() results == sent payloads in order, no error on either side, '
         'every request completed successfully. The recorded run is replayed on the extracted Coq model and every line compared. '
         'non-trivial = distinct (configuration, message lengths, schedule) cases'
-        ' (joint) random schedules of user-level calls on two real layers joined directly - sends at any moment on both sides, process() with every flag combination, ticks up to beyond the timeouts, recv() - with the conclusion of theorem C01_every_schedule as oracle (no error => deliveries are a prefix of what was accepted; at rest => all of it), every call compared with the extracted Coq joint model Joint.cstep.')
+        ' (joint) random schedules of user-level calls on two real layers joined directly - sends at any moment on both sides, process() with every flag combination, ticks up to beyond the timeouts, recv() - with the conclusion of theorem C01_every_schedule as oracle (no error => deliveries are a prefix of what was accepted; at rest => all of it), every call compared with the extracted Coq joint model Joint.cstep.'
+        ' In the joint campaign any reported error must come with a deadline error (conclusion of C01_only_deadline_errors_schedule).')
 ASSUME = ['links are reliable FIFOs; both sides are processed before any protocol deadline (the schedule generator keeps ticks below the timeouts)']
 
 
